@@ -113,6 +113,7 @@ class C09(Prop):
             if (ex["keylog"] != ex0["keylog"] or ex["capture"] != ex0["capture"]) and exported:
                 out.nontrivial = True
                 out.add("variants", "%s:%s" % (spec.get("seed"), name))
+                out.item("variant:%s:%s" % (name, sorted(kc.items())))
             fc = failure_class(res)
             tag = "variant %s %s" % (name, kc)
             if fc:
